@@ -583,3 +583,90 @@ Example C20_operation_hypotheses_satisfiable :
   = [(b "GET", b "https://localhost:5000/v2/hello/world/manifests/v1");
      (b "PUT", b "https://localhost:5000/v2/hello/world/manifests/v2")].
 Proof. repeat split; try (vm_compute; reflexivity). repeat constructor. Qed.
+
+(* ---------- Digest.Validate tied to go-digest's source ---------- *)
+
+(* the digest check assembled from go-digest's own algorithm table (names, hash sizes, anchored
+   regexes of the encoded part, read off the pinned module's algorithm.go on every run; this is
+   what the correspondence runs) is the closed form valid_digest all theorems are stated about *)
+Theorem C20_digest_from_source :
+  forall (avail : str -> bool) s, valid_digest_gen avail s = valid_digest avail s.
+Proof. exact valid_digest_gen_eq. Qed.
+Print Assumptions C20_digest_from_source.
+
+Example C20_go_digest_table :
+  map (fun p => (fst (fst p), snd (fst p))) go_digest_algorithms
+  = [(b "sha256", 64%nat); (b "sha384", 96%nat); (b "sha512", 128%nat)].
+Proof. vm_compute. reflexivity. Qed.
+
+(* ---------- the operation theorems with the modelled validator: no premise about the registry ---------- *)
+
+Theorem C20_desc_op_requests_exact_go :
+  forall (avail ip6_ok : str -> bool) op plain breg brepo d a1 num,
+    go_valid_registry ip6_ok breg = true -> valid_repository brepo = true -> valid_digest avail d = true ->
+    bytes a1 -> bytes num -> (op = DMount -> valid_repository a1 = true) ->
+    exists u q,
+      desc_op_requests op plain (mkRef breg brepo []) d a1 num = [(desc_op_method op, u)] /\
+      url_split u = Some (mkParts (scheme plain) (host_of breg) (path_of brepo (desc_op_slot op d)) q None) /\
+      split_on c_slash (path_of brepo (desc_op_slot op d)) = [[]; b "v2"] ++ split_on c_slash brepo ++ desc_op_slot op d /\
+      contains c_at (host_of breg) = false /\
+      match desc_op_params op d a1 num with
+      | [] => q = None
+      | ps => exists qs, q = Some qs /\ parse_query qs = Some ps
+      end.
+Proof. exact desc_op_requests_exact_go. Qed.
+Print Assumptions C20_desc_op_requests_exact_go.
+
+Theorem C20_reg_op_requests_exact_go :
+  forall (ip6_ok : str -> bool) op plain reg a1 num,
+    go_valid_registry ip6_ok reg = true -> bytes a1 -> bytes num ->
+    exists u q,
+      reg_op_requests op plain reg a1 num = [(m_get, u)] /\
+      url_split u = Some (mkParts (scheme plain) (host_of reg) (reg_op_path op) q None) /\
+      contains c_at (host_of reg) = false /\
+      match reg_op_params op a1 num with
+      | [] => q = None
+      | ps => exists qs, q = Some qs /\ parse_query qs = Some ps
+      end.
+Proof. exact reg_op_requests_exact_go. Qed.
+Print Assumptions C20_reg_op_requests_exact_go.
+
+(* end to end: a Repository made by remote.NewRepository(s0) for ANY string s0 that it accepts,
+   then ANY history of calls (reference strings arbitrary, descriptors with valid digests), resp.
+   oras.Tag / oras.TagN with arbitrary arguments: every request stays in that repository.  No
+   premise about the registry or the base is left. *)
+Theorem C20_new_repository_session_in_base :
+  forall (avail ip6_ok : str -> bool) s0 base plain cs,
+    new_repository avail (go_valid_registry ip6_ok) s0 = Some base -> Forall (call_ok avail) cs ->
+    Forall (fun mu => in_base_slot plain (r_registry base) (r_repository base) (snd mu))
+           (session_requests avail (go_valid_registry ip6_ok) plain (r_registry base) (r_repository base) cs).
+Proof. exact new_repository_session_in_base. Qed.
+Print Assumptions C20_new_repository_session_in_base.
+
+Theorem C20_new_repository_oras_tag_in_base :
+  forall (avail ip6_ok : str -> bool) s0 base plain src dsts served,
+    new_repository avail (go_valid_registry ip6_ok) s0 = Some base ->
+    Forall (fun mu => in_base_slot plain (r_registry base) (r_repository base) (snd mu))
+           (oras_tag_requests avail (go_valid_registry ip6_ok) plain (r_registry base) (r_repository base) src dsts served).
+Proof. exact new_repository_oras_tag_in_base. Qed.
+Print Assumptions C20_new_repository_oras_tag_in_base.
+
+Theorem C20_url_referrers_at_exact_go :
+  forall (avail ip6_ok : str -> bool) plain s r at_,
+    parse avail (go_valid_registry ip6_ok) s = Some r -> r_reference r <> [] -> at_ <> [] -> bytes at_ ->
+    url_split (url_referrers_at plain r at_)
+    = Some (mkParts (scheme plain) (host_of (r_registry r))
+              (b "/v2/" ++ r_repository r ++ b "/referrers/" ++ r_reference r)
+              (Some (b "artifactType=" ++ query_escape at_)) None) /\
+    query_unescape (query_escape at_) = Some at_.
+Proof. exact url_referrers_at_exact_go. Qed.
+Print Assumptions C20_url_referrers_at_exact_go.
+
+(* ---------- net/url's escaping table tied to the toolchain source ---------- *)
+
+Theorem C20_neturl_classes_from_source :
+  forall c, (c < 256)%N ->
+    host_plain c = mem_c c neturl_encodeHost /\ host_plain c = mem_c c neturl_encodeZone /\
+    query_plain c = mem_c c neturl_encodeQueryComponent /\ is_hex_c c = mem_c c neturl_hexChar.
+Proof. exact neturl_classes_from_source. Qed.
+Print Assumptions C20_neturl_classes_from_source.
